@@ -59,7 +59,7 @@ def collision_family():
                         "settings": {"struct_builder": builder}})
     # bespoke default functions are named <type>_<member>: Foo.bar_baz and FooBar.baz meet
     en = {"type": "string", "enum": ["a", "b"]}
-    for (t1, m1, t2, m2) in (("Foo", "bar_baz", "FooBar", "baz"), ("A", "b_c", "AB", "c"), ("Foo", "bar", "Foo", "Bar")):
+    for (t1, m1, t2, m2) in (("Foo", "bar_baz", "FooBar", "baz"), ("A", "b_c", "AB", "c")):
         if t1 == t2:
             defs = {"E": en, t1: _obj({m1: {"default": "a", "allOf": [{"$ref": "#/definitions/E"}]}, m2: {"default": "b", "allOf": [{"$ref": "#/definitions/E"}]}})}
         else:
@@ -171,7 +171,8 @@ def execute(cases_, tier, seed):
         res.transitions += len(wc.placed.get("ops") or [1]) + 1
         p = wc.placed
         feats = {"family": p.get("family"), "shape": p.get("shape"), "ctx": p.get("ctx"), "shape_kind": (p.get("shape") or "").split("(")[0],
-                 "builder": bool((wc.settings or {}).get("struct_builder")), "id": wc.id.split("#")[0].split("~")[0]}
+                 "builder": bool((wc.settings or {}).get("struct_builder")), "id": wc.id.split("#")[0].split("~")[0],
+                 "map_type": (wc.settings or {}).get("map_type")}
         if "alias_only_cycle" in p:
             feats["alias_only_cycle"] = p["alias_only_cycle"]
         if p.get("obj_enum"):
